@@ -7,15 +7,14 @@ pub fn def() -> PropDef {
     PropDef {
         id: "C15",
         builds: BOTH,
-        rule: "round trip: every paragraph of 1..=k words from {a,bb,ccc,e-acute,CJK,x-y,d.} x widths 0..=12 x 64 ordered indent pairs over 8 prefix-character indents x algorithms x LF/CRLF x with/without trailing ending (ASCII separator, no hyphenation, break_words off); structural: every string over {SP,#,L,NL,CR,E2,HY,/} up to length N; non-trivial = a filled form with >= 2 lines (round trip) / an input with >= 2 non-empty lines (structural)",
+        rule: "round trip: every paragraph of 1..=k words from {a,bb,ccc,e-acute,CJK,x-y,d.,a word wrapped in SGR sequences,a word containing a TAB} x widths 0..=12 x 64 ordered indent pairs over 8 prefix-character indents x algorithms x LF/CRLF x with/without trailing ending (ASCII separator, no hyphenation, break_words off); structural: every string over {SP,#,L,NL,CR,E2,HY,/} up to length N; non-trivial = a filled form with >= 2 lines (round trip) / an input with >= 2 non-empty lines (structural)",
         assumptions: BASE_ASSUMPTIONS,
         floor: |t| t.pick(100_000, 1_000_000),
         run,
-        panics_are_verdict: false,
     }
 }
 
-pub const VOCAB: &[&str] = &["a", "bb", "ccc", "\u{e9}", "\u{4f60}", "x-y", "d."];
+pub const VOCAB: &[&str] = &["a", "bb", "ccc", "\u{e9}", "\u{4f60}", "x-y", "d.", "\x1b[1mq\x1b[0m", "t\tu"];
 pub const INDENTS: &[&str] = &["", " ", "> ", "- ", "  ", "#", "//", "* "];
 
 pub fn algs() -> Vec<(&'static str, WrapAlgorithm)> {
